@@ -35,7 +35,7 @@ func BuildUnit(P *Program, key string, profile string, prop string) (*Unit, erro
 	e := &enc{P: P, S: newSorts(), famSort: map[string]string{}, profile: profile, prop: prop, notes: map[string]bool{}, trusted: map[string]bool{},
 		inlined: map[string]bool{}, callees: map[string]bool{}, unitName: key, names: map[string]int{}, globals: map[string]Term{},
 		funcRefs: map[string]Term{}, fnByRef: map[string]interface{}{}, logicals: map[string]TV{}, closByRef: map[string]*closureVal{},
-		inlineBusy: map[*ssa.Function]bool{}, rootFC: fc, ghostEntry: map[string]Term{}, ghostFns: map[string]bool{}, ghostFnStr: map[string]bool{}, ghostTy: map[string]types.Type{}}
+		inlineBusy: map[*ssa.Function]bool{}, rootFC: fc, ghostEntry: map[string]Term{}, ghostFns: map[string]bool{}, ghostFnStr: map[string]bool{}, ghostFnAny: map[string]bool{}, ghostTy: map[string]types.Type{}}
 	e.safetyProps = fc.Safety
 	for _, lc := range fc.Loops {
 		for _, gf := range lc.GhostFns {
@@ -43,6 +43,10 @@ func BuildUnit(P *Program, key string, profile string, prop string) (*Unit, erro
 			if gf.Ty == "string" {
 				rs = "String"
 				e.ghostFnStr[gf.Name] = true
+			}
+			if gf.Ty == "any" {
+				rs = "Val"
+				e.ghostFnAny[gf.Name] = true
 			}
 			e.S.extraDecls = append(e.S.extraDecls, fmt.Sprintf("(declare-fun %s (Int) %s)", q("gf:"+gf.Name), rs))
 			e.ghostFns[gf.Name] = true
